@@ -105,7 +105,23 @@ type unmarshalTextDecoder struct {
 
 func (d *unmarshalTextDecoder) FromDom(vp unsafe.Pointer, node Node, ctx *context) error {
 	if node.IsNull() {
-		*(*unsafe.Pointer)(vp) = nil
+		/* null never reaches a TextUnmarshaler: like encoding/json it only clears
+		 * nil-able kinds and leaves any other value alone (writing a nil word into
+		 * e.g. struct{ S string } would leave a string with a nil pointer and a
+		 * non-zero length behind) */
+		kind := d.typ.Kind()
+		if kind == reflect.Ptr {
+			/* pointer receiver: d.typ is *T while vp addresses the T value */
+			kind = d.typ.Pack().Elem().Kind()
+		}
+		switch kind {
+		case reflect.Ptr, reflect.Map:
+			*(*unsafe.Pointer)(vp) = nil
+		case reflect.Slice:
+			*(*rt.GoSlice)(vp) = rt.GoSlice{}
+		case reflect.Interface:
+			*(*rt.GoEface)(vp) = rt.GoEface{}
+		}
 		return nil
 	}
 
